@@ -100,6 +100,7 @@ func runC14(e *Engine, r *Report, tier string) {
 	r.Rule("R2", "bank: SendCoins(from, to, GetAllBalances(from))", 1, "")
 	r.Rule("R3", "signature by target over (from,to); from != to; migration-record lookups first", 4, "")
 	r.Rule("R4", "all Validate before all Execute; record after", 3, "")
+	r.Rule("R6", "staking key constructors receive the record's source / destination validator in the matching parameter", 6, "calls from the migrator to key constructors with valSrc / valDst parameters")
 	r.Rule("R5", "open-proposal scan covers the whole queues (unbounded range, callbacks never stop the walk without an error); proposer/deposit/vote checked for source and target", 7, "2 queue scans + 3 participation kinds")
 
 	// locate migrator implementers (interface MigrateI)
@@ -597,5 +598,57 @@ func runC14(e *Engine, r *Report, tier string) {
 		for _, k := range []string{"proposer", "HasDeposit", "HasVote"} {
 			r.Check(count[k] >= 2, "R5", "participation "+k, e.Pos(govValidate.Pos()), fmt.Sprintf("%d refusing checks (source and target)", count[k]), fmt.Sprintf("only %d refusing `%s` check(s): source and target must both be refused", count[k], k))
 		}
+	}
+
+	// ---------- R6: a staking key constructor gets the record's source validator where it expects the source, the
+	// destination where it expects the destination ----------
+	// All three redelegation keys take (delegator, valSrc, valDst) but lay the bytes out differently; the two validator
+	// arguments have the same type, so swapping them compiles and re-keys the entry under a key nobody reads.
+	n6 := 0
+	for _, fn := range e.Funcs {
+		if isAuxPkg(fnPkgPath(fn)) || !strings.Contains(fnPkgPath(fn), "x/migrate/keeper") {
+			continue
+		}
+		allCalls(fn, func(c ssa.CallInstruction) {
+			callee := c.Common().StaticCallee()
+			if callee == nil || !strings.Contains(fnPkgPath(callee), "x/staking/types") && !strings.Contains(fnPkgPath(callee), "x/distribution/types") {
+				return
+			}
+			sig := callee.Signature
+			args := c.Common().Args
+			for i := 0; i < sig.Params().Len() && i < len(args); i++ {
+				pn := sig.Params().At(i).Name()
+				role := ""
+				switch {
+				case strings.Contains(pn, "Src"):
+					role = "Src"
+				case strings.Contains(pn, "Dst"):
+					role = "Dst"
+				default:
+					continue
+				}
+				n6++
+				ck := fmt.Sprintf("%s -> %s(%s)", e.CanonFnKey(fn), callee.Name(), pn)
+				got := ""
+				e.Slice(args[i], SliceOpts{MaxDepth: 8}, func(x ssa.Value) Verdict {
+					if n, _, ok := fieldName(x); ok && strings.HasPrefix(n, "Validator") {
+						got = n
+						return Accept
+					}
+					return Continue
+				})
+				switch {
+				case got == "":
+					r.Undecided("R6", ck, e.InstrPos(c), "the argument is not rooted in a Validator*Address field of the migrated record")
+				case strings.Contains(got, role):
+					r.Ok("R6", ck, e.InstrPos(c), "argument is the record's "+got)
+				default:
+					r.Fail("R6", ck, e.InstrPos(c), "the key constructor's `"+pn+"` parameter is given the record's "+got+": the entry is deleted / written under a key with source and destination validator swapped, so the real index entry stays with the source account and the target gets one nobody reads")
+				}
+			}
+		})
+	}
+	if n6 == 0 {
+		r.Fail("R6", "key-constructor roles", "", "UNRESOLVED-ANCHOR: no staking key constructor with a source/destination validator parameter is called by the migrator")
 	}
 }
